@@ -77,8 +77,9 @@ def run(ctx):
                        "unchecked": "correspondence G12.Exchange/Conntrack model vs implementation on leaf " + k},
                       False, "model and implementation differ although the accounting predicate holds: %s %s %s" % (
                           case.get("name"), trace_text(case) if kind == "xcases" else json.dumps(case), case.get("err", "")))
-    if ob_failed and not ctx.violations and not ctx.known_hits:
-        ctx.violation("obligation-unchecked", dict(unchecked=ob_failed), False, ob_failed[0][:300])
+    # a broken obligation / theorem / translator is reported unless a NEW failing input was found (known findings do not count)
+    if ob_failed and not any(found for _, _, found, _ in ctx.violations):
+        ctx.violation("obligation-unchecked", dict(unchecked=ob_failed), False, "; ".join(o[:160] for o in ob_failed[:4]))
     elif ob_failed:
         ctx.notes.append({"unchecked_obligations": ob_failed})
 
